@@ -69,7 +69,21 @@ def case_log_basic(H, g):
         # principal value: |phi|^2 <= pi^2
         H.prove('%s/path%d/|phi|<=pi' % (name, pn), hyp, T.dot(ph, ph) <= PI * PI, replay=replay, key=key, timeout=to)
         away = [z3.Or(q[3] > z3.RealVal('1/1000'), q[3] < -z3.RealVal('1/1000'))]
-        for i in range(ADIM[g]):
+        fams = quat_log_families(ctx)
+        if g != 'SO3' and len(fams) >= 2 and all(f['half'] is not None for f in fams):
+            # generic branch of all three logarithms (X, negated quaternion, inverse): per hemisphere, the lemma chain of every family and
+            # then rational certificates modulo the lemma conclusions
+            for sign, tag in ((1, 'w>0'), (-1, 'w<0')):
+                case, lem = quat_log_lemmas(ctx, sign)
+                hy, lobs, _tab = H.chain('%s/path%d/%s' % (name, pn, tag), hyp + case, lem, replay=replay, key=key, timeout=2 * to)
+                rels, elim = quat_log_relations(ctx, sign)
+                for i in range(ADIM[g]):
+                    H.certify('%s/path%d/%s/Log(-q)==Log(q)[%d]' % (name, pn, tag, i), L[i], Ln[i], rels, hyps=hy, depends=lobs, elim=elim, replay=replay,
+                              key=key, timeout=3 * to)
+                    H.certify('%s/path%d/%s/Log(Inv X)==-Log(X)[%d]' % (name, pn, tag, i), Li[i], -L[i], rels, hyps=hy, depends=lobs, elim=elim, replay=replay,
+                              key=key, timeout=3 * to)
+                H.reach('%s/path%d/%s/reach' % (name, pn, tag), hyp + case)
+        for i in ([] if (g != 'SO3' and len(fams) >= 2 and all(f['half'] is not None for f in fams)) else range(ADIM[g])):
             d1, d2 = L[i] - Ln[i], L[i] + Li[i]
             H.prove('%s/path%d/Log(-q)==Log(q)[%d]' % (name, pn, i), hyp + away, L[i] == Ln[i], replay=replay, key=key, timeout=to,
                     neg_margin=z3.Or(d1 > z3.RealVal('1/1000'), d1 < -z3.RealVal('1/1000')))
@@ -120,6 +134,8 @@ def case_exp_log(H, g):
         if s is not None:
             pairs += [('scale', sy, s)]
         staged = (not small) and quat_log_families(ctx)
+        if H.quick and g != 'SO3' and not staged:
+            continue          # small-angle / near-pi branches of the larger groups: thorough tier (SO3 covers them in quick)
         if staged:
             # generic branch of the quaternion logarithm: staged proof per hemisphere.  Lemmas (each proved, in order):
             # |phi| = 2|atan(|v|/w)|, sin(|phi|/2) = |v|, cos(|phi|/2) = |w| (and the full-angle pair); then the goals.
@@ -202,7 +218,7 @@ def case_log_exp(H, g):
 def run(H):
     H.assumptions += ['exact real arithmetic (the abstraction of transcendental functions is sound: unsat holds for the real functions)',
                       'valid group inputs; scale in [1/3000, 3000]; |sigma| <= 8']
-    H.bounds += ['single items', 'quick: SO3 for all clauses, SE3/RxSO3 for Log basics and Exp(Log X); thorough: all four groups']
+    H.bounds += ['single items', 'quick: SO3 for all clauses, SE3/RxSO3 for Log basics and the generic branch of Exp(Log X); thorough: all four groups, all branches']
     only = getattr(H, 'only', None)
     groups_basic = ['SO3', 'SE3', 'RxSO3'] if H.quick else GROUPS
     groups_deep = ['SO3', 'SE3', 'RxSO3'] if H.quick else GROUPS
